@@ -601,7 +601,7 @@ def text_fd_to_metric_families(fd):
             if typ == 'stateset' and name not in sample.labels:
                 raise ValueError("Stateset missing label: " + line)
             if (name + '_bucket' == sample.name
-                    and (sample.labels.get('le', "NaN") == "NaN"
+                    and (math.isnan(float(sample.labels.get('le', "NaN")))
                          or _isUncanonicalNumber(sample.labels['le']))):
                 raise ValueError("Invalid le label: " + line)
             if (name + '_bucket' == sample.name
